@@ -721,15 +721,17 @@ inductive RStep (w : World) (op : Op) (rs' : List RouterSt) : Prop
   | warm (r : Nat) : op = .warmup r → rs' = modifyAt w.routers r warmup → RStep w op rs'
   | route (r : Nat) (rec : RouteRec) : routeRecOf w op = some (r, rec) → (∀ r', selUse r' op = none) →
       rs' = modifyAt w.routers r (addRoute · rec) → RStep w op rs'
+  | rereg (r : Nat) (ver : Option Nat) (path : Path) : op = .whereOp r ver path →
+      rs' = modifyAt w.routers r (reRegister ver path) → RStep w op rs'
   | same : routeRecOf w op = none → (∀ r', selUse r' op = none) → op ≠ .newRouter → (∀ r, op ≠ .warmup r) →
       rs' = w.routers → RStep w op rs'
 
 abbrev isMount := isMountOp
 
-theorem rstep (w : World) (op : Op) (hm : isMount op = false) (hwh : isWhereOp op = false) :
+theorem rstep (w : World) (op : Op) (hm : isMount op = false) :
     RStep w op (apply w op).routers := by
   cases op with
-  | whereOp r v p => simp [isWhereOp] at hwh
+  | whereOp r v p => exact .rereg r v p rfl rfl
   | newRouter => exact .new rfl rfl
   | use r hs =>
     refine .use r hs (by simp [selUse]) ?_ rfl rfl
@@ -810,6 +812,7 @@ structure RInvAt (script : List Op) (t r : Nat) (rs : RouterSt) : Prop where
     r < (W script i).routers.length →
     rec0 ∈ rs.pending ∨ ∃ treg, i ≤ treg ∧ treg ≤ t ∧ regRec script r treg rec0 ∈ rs.tree
   warmed : rs.warmed = true → rs.pending = []
+  objs : ∀ rec ∈ rs.objs, ∃ i op, script[i]? = some op ∧ i < t ∧ routeRecOf (W script i) op = some (r, rec)
 
 def RInv (script : List Op) (t : Nat) : Prop :=
   (W script t).routers.length = 1 + cnt isNewRouter script t ∧
@@ -854,6 +857,10 @@ theorem rinvAt_keep (r : Nat) (rs : RouterSt) (h : RInvAt script t r rs)
       cases h1
       exact (hrec rec0 h3).elim
   warmed := h.warmed
+  objs := by
+    intro rec hr
+    obtain ⟨i, op, h1, h2, h3⟩ := h.objs rec hr
+    exact ⟨i, op, h1, by omega, h3⟩
 
 /-- `r.Use(hs...)` on this router -/
 theorem rinvAt_use (r : Nat) (rs : RouterSt) (h : RInvAt script t r rs) (hs : List Hid)
@@ -880,6 +887,10 @@ theorem rinvAt_use (r : Nat) (rs : RouterSt) (h : RInvAt script t r rs) (hs : Li
       cases h1
       rw [hrec] at h3; cases h3
   warmed := h.warmed
+  objs := by
+    intro rec hr
+    obtain ⟨i, op, h1, h2, h3⟩ := h.objs rec hr
+    exact ⟨i, op, h1, by omega, h3⟩
 
 /-- `r.Warmup()` on this router -/
 theorem rinvAt_warm (r : Nat) (rs : RouterSt) (h : RInvAt script t r rs)
@@ -893,7 +904,7 @@ theorem rinvAt_warm (r : Nat) (rs : RouterSt) (h : RInvAt script t r rs)
     simp only [hw', Bool.false_eq_true, if_false]
     rw [foldl_register]
     have hk := rinvAt_keep script t htl r rs h hsel (by intro rec0; rw [hrec]; simp)
-    refine ⟨hk.mw, by simp, ?_, ?_, by simp⟩
+    refine ⟨hk.mw, by simp, ?_, ?_, by simp, hk.objs⟩
     · intro rec hr
       simp only [List.mem_append, List.mem_map] at hr
       rcases hr with hr | ⟨rt, hrt, rfl⟩
@@ -938,7 +949,13 @@ theorem rinvAt_route (r : Nat) (rs : RouterSt) (h : RInvAt script t r rs) (rec :
   unfold addRoute
   by_cases hw : rs.warmed = true
   · simp only [hw, if_true, register]
-    refine ⟨by simp only []; rw [h.mw, hmw], ?_, ?_, ?_, fun _ => by simpa using h.warmed hw⟩
+    refine ⟨by simp only []; rw [h.mw, hmw], ?_, ?_, ?_, fun _ => by simpa using h.warmed hw, (by
+      intro rc hr
+      simp only [List.mem_append, List.mem_singleton] at hr
+      rcases hr with hr | rfl
+      · obtain ⟨i, op, h1, h2, h3⟩ := h.objs rc hr
+        exact ⟨i, op, h1, by omega, h3⟩
+      · exact ⟨t, script[t], hget, by omega, hrec⟩)⟩
     · intro rc hr
       have := h.warmed hw
       simp [this] at hr
@@ -956,7 +973,13 @@ theorem rinvAt_route (r : Nat) (rs : RouterSt) (h : RInvAt script t r rs) (rec :
       · exact Or.inr ⟨treg, a, by omega, by simp only [List.mem_append]; exact Or.inl c⟩
   · have hw' : rs.warmed = false := by simpa using hw
     simp only [hw', Bool.false_eq_true, if_false]
-    refine ⟨by simp only []; rw [h.mw, hmw], ?_, ?_, ?_, fun hx => by simp at hx⟩
+    refine ⟨by simp only []; rw [h.mw, hmw], ?_, ?_, ?_, fun hx => by simp at hx, (by
+      intro rc hr
+      simp only [List.mem_append, List.mem_singleton] at hr
+      rcases hr with hr | rfl
+      · obtain ⟨i, op, h1, h2, h3⟩ := h.objs rc hr
+        exact ⟨i, op, h1, by omega, h3⟩
+      · exact ⟨t, script[t], hget, by omega, hrec⟩)⟩
     · intro rc hr
       simp only [List.mem_append, List.mem_singleton] at hr
       rcases hr with hr | rfl
@@ -972,10 +995,36 @@ theorem rinvAt_route (r : Nat) (rs : RouterSt) (h : RInvAt script t r rs) (rec :
       · exact Or.inl (by simp only [List.mem_append]; exact Or.inl hp)
       · exact Or.inr ⟨treg, a, by omega, c⟩
 
+/-- `rt.Where…` on a route of this router: a registered route is registered once more, with the
+    middleware of now -/
+theorem rinvAt_rereg (r : Nat) (rs : RouterSt) (h : RInvAt script t r rs) (ver : Option Nat) (path : Path)
+    (hsel : selUse r script[t] = none) (hrec : routeRecOf (W script t) script[t] = none) :
+    RInvAt script (t + 1) r (reRegister ver path rs) := by
+  have hk := rinvAt_keep script t htl r rs h hsel (by intro rec0; rw [hrec]; simp)
+  unfold reRegister
+  cases hf : rs.objs.find? (fun o => o.ver == ver && o.path == path) with
+  | none => exact hk
+  | some o =>
+    simp only []
+    by_cases ha : rs.tree.any (fun rt => rt.ver == ver && rt.path == path) = true
+    · simp only [ha, if_true, register]
+      obtain ⟨i, op, a1, a2, a3⟩ := h.objs o (List.mem_of_find?_eq_some hf)
+      refine ⟨hk.mw, hk.pend, ?_, ?_, hk.warmed, hk.objs⟩
+      · intro rc hr
+        simp only [List.mem_append, List.mem_singleton] at hr
+        rcases hr with hr | rfl
+        · exact hk.tree rc hr
+        · exact ⟨i, op, o, t, a1, by omega, by omega, by omega, a3, by simp [regRec, h.mw]⟩
+      · intro i' op' rec0 b1 b2 b3 b4
+        rcases hk.pres i' op' rec0 b1 b2 b3 b4 with hp | ⟨treg, x, y, z⟩
+        · exact Or.inl hp
+        · exact Or.inr ⟨treg, x, y, by simp only [List.mem_append]; exact Or.inl z⟩
+    · simp only [ha]
+      exact hk
+
 end
 
-/-- neither `Mount` nor a constraint added to an existing route -/
-def NoMount (script : List Op) : Prop := ∀ op ∈ script, isMount op = false ∧ isWhereOp op = false
+def NoMount (script : List Op) : Prop := ∀ op ∈ script, isMount op = false
 
 theorem routers_length (script : List Op) (hnm : NoMount script) :
     ∀ t, t ≤ script.length → (W script t).routers.length = 1 + cnt isNewRouter script t := by
@@ -986,7 +1035,7 @@ theorem routers_length (script : List Op) (hnm : NoMount script) :
     intro ht
     have htl : t < script.length := ht
     have hm := hnm script[t] (List.getElem_mem htl)
-    have hs := rstep (W script t) script[t] hm.1 hm.2
+    have hs := rstep (W script t) script[t] hm
     rw [← W_succ script t htl] at hs
     have hcnt := cnt_succ isNewRouter script t htl
     have ih' := ih (Nat.le_of_lt htl)
@@ -1001,6 +1050,7 @@ theorem routers_length (script : List Op) (hnm : NoMount script) :
       have : isNewRouter script[t] = false := by
         cases hop : script[t] <;> simp [isNewRouter, isNewRouterOp] <;> rw [hop] at h1 <;> simp [routeRecOf] at h1
       rw [h3, modifyAt_length, hcnt, this, ih']; simp
+    | rereg r v p h1 h2 => rw [h2, modifyAt_length, hcnt, h1, ih']; simp [isNewRouter, isNewRouterOp]
     | same h1 h2 h3 h4 h5 =>
       have : isNewRouter script[t] = false := by
         cases hop : script[t] <;> simp [isNewRouter, isNewRouterOp]
@@ -1040,13 +1090,13 @@ theorem rinv (script : List Op) (hnm : NoMount script) (hwf : WFR script) :
       | zero => simp at h; exact ⟨rfl, h.symm⟩
       | succ r => simp at h
     obtain ⟨rfl, rfl⟩ := this
-    exact ⟨by simp [usesB_zero], by simp, by simp, by intro i op rec0 _ h2; omega, by simp⟩
+    exact ⟨by simp [usesB_zero], by simp, by simp, by intro i op rec0 _ h2; omega, by simp, by simp⟩
   | succ t ih =>
     intro ht r rs hr
     have htl : t < script.length := ht
     have ih' := ih (Nat.le_of_lt htl)
     have hm := hnm script[t] (List.getElem_mem htl)
-    have hs := rstep (W script t) script[t] hm.1 hm.2
+    have hs := rstep (W script t) script[t] hm
     rw [← W_succ script t htl] at hs
     have hlen := routers_length script hnm t (Nat.le_of_lt htl)
     cases hs with
@@ -1064,7 +1114,7 @@ theorem rinv (script : List Op) (hnm : NoMount script) (hwf : WFR script) :
           | succ j => rw [hx] at hr; simp at hr
         simp [hr0] at hr
         subst hr
-        refine ⟨?_, by simp, by simp, ?_, by simp⟩
+        refine ⟨?_, by simp, by simp, ?_, by simp, by simp⟩
         · show ([] : List Hid) = _
           rw [usesB_succ _ _ _ htl, hsel r, usesB_router_future_nil script hwf r t (by omega)]; rfl
         · intro i op rec0 h1' h2' h3' h4'
@@ -1110,6 +1160,20 @@ theorem rinv (script : List Op) (hnm : NoMount script) (hwf : WFR script) :
       · simp only [hrr, if_false] at hr
         exact rinvAt_keep script t htl r rs (ih' r rs hr) (h2 r) (by
           intro rec0 hx; rw [h1] at hx; cases hx; exact hrr rfl)
+    | rereg r0 v p h1 h2 =>
+      have hsel : ∀ r', selUse r' script[t] = none := by intro r'; rw [h1]; rfl
+      have hrec : routeRecOf (W script t) script[t] = none := by rw [h1]; rfl
+      rw [h2, modifyAt_getElem?] at hr
+      by_cases hrr : r0 = r
+      · subst hrr
+        simp only [if_true] at hr
+        cases hold : (W script t).routers[r0]? with
+        | none => rw [hold] at hr; simp at hr
+        | some rs0 =>
+          rw [hold] at hr; simp at hr; subst hr
+          exact rinvAt_rereg script t htl r0 rs0 (ih' r0 rs0 hold) v p (hsel r0) hrec
+      · simp only [hrr, if_false] at hr
+        exact rinvAt_keep script t htl r rs (ih' r rs hr) (hsel r) (by intro rec0; rw [hrec]; simp)
     | same h1 h2 h3 h4 h5 =>
       rw [h5] at hr
       exact rinvAt_keep script t htl r rs (ih' r rs hr) (h2 r) (by intro rec0; rw [h1]; simp)
@@ -1625,10 +1689,9 @@ theorem wf_of_wfB (script : List Op) (h : wfB script = true) : WF script := by
     | vgroup v seg hs => simpa [ownRefsOK] using h4
     | _ => trivial
 
-theorem noMount_of_noMountB (script : List Op) (h : noMountB script = true) (hw : noWhereB script = true) :
-    NoMount script := by
+theorem noMount_of_noMountB (script : List Op) (h : noMountB script = true) : NoMount script := by
   intro op hop
-  simp only [noMountB, noWhereB, List.all_eq_true] at h hw
-  exact ⟨by simpa using h op hop, by simpa using hw op hop⟩
+  simp only [noMountB, List.all_eq_true] at h
+  simpa using h op hop
 
 end Rivaas.Compose
